@@ -42,3 +42,74 @@ Qed.
 
 Theorem best_none_iff_empty (s : spec_state) : best s = None <-> s = [].
 Proof. destruct s; simpl; split; congruence. Qed.
+
+(* ---- what the reference guarantees, in the words of the property ---------------------- *)
+Lemma best_from_In (r : spec_state) cur : In (best_from cur r) (cur :: r).
+Proof.
+  revert cur. induction r as [|x r IH]; intro cur; simpl; [now left|].
+  destruct (snd cur <? snd x).
+  - right. apply IH.
+  - destruct (IH cur) as [E|H]; [left; exact E|right; right; exact H].
+Qed.
+
+Lemma s_mem_In (s : spec_state) t : s_mem s t = true <-> In t (map fst s).
+Proof.
+  unfold s_mem. rewrite existsb_exists, in_map_iff. split.
+  - intros (x & Hx & E). apply Nat.eqb_eq in E. eauto.
+  - intros (x & E & Hx). exists x. split; [exact Hx|]. now apply Nat.eqb_eq.
+Qed.
+
+Lemma s_del_not_mem (s : spec_state) t : s_mem (s_del s t) t = false.
+Proof.
+  apply not_true_is_false. rewrite s_mem_In, in_map_iff. intros (x & E & Hx).
+  unfold s_del in Hx. apply filter_In in Hx as [_ Hx]. apply negb_true_iff, Nat.eqb_neq in Hx. exact (Hx E).
+Qed.
+
+(* pop/peek only ever return a live task; a popped or removed task is no longer live *)
+Theorem pop_returns_live s d s' t :
+  spec_step s (Pop d) = (s', OTask t) -> s_mem s t = true /\ s_mem s' t = false.
+Proof.
+  simpl. destruct (best s) as [[t0 p0]|] eqn:B.
+  - intros [= <- <-]. split; [|apply s_del_not_mem].
+    apply s_mem_In. destruct s as [|c r]; [discriminate|]. simpl in B. inversion B as [E].
+    pose proof (best_from_In r c) as H. rewrite E in H. apply (in_map fst) in H. exact H.
+  - destruct d; intros [= _ E]; discriminate.
+Qed.
+
+Theorem peek_returns_live s d s' t :
+  spec_step s (Peek d) = (s', OTask t) -> s' = s /\ s_mem s t = true.
+Proof.
+  simpl. destruct (best s) as [[t0 p0]|] eqn:B.
+  - intros [= <- <-]. split; [reflexivity|].
+    apply s_mem_In. destruct s as [|c r]; [discriminate|]. simpl in B. inversion B as [E].
+    pose proof (best_from_In r c) as H. rewrite E in H. apply (in_map fst) in H. exact H.
+  - destruct d; intros [= _ E]; discriminate.
+Qed.
+
+Theorem remove_makes_dead s t s' o : spec_step s (Remove t) = (s', o) -> s_mem s' t = false.
+Proof.
+  simpl. destruct (s_mem s t) eqn:M; intros [= <- _]; [apply s_del_not_mem|exact M].
+Qed.
+
+(* the live tasks are pairwise distinct, so len counts tasks *)
+Theorem tasks_unique_step s op : NoDup (map fst s) -> NoDup (map fst (fst (spec_step s op))).
+Proof.
+  intro ND.
+  assert (Hdel : forall t, NoDup (map fst (s_del s t))).
+  { intro t. unfold s_del. clear -ND. induction s as [|[k z] r IH]; simpl; [constructor|].
+    simpl in ND. inversion ND as [|? ? Hx ND']; subst. destruct (Nat.eqb k t); simpl; [auto|].
+    constructor; [|auto]. intro H. apply Hx. apply in_map_iff in H as (y & E & Hy).
+    apply filter_In in Hy as [Hy _]. apply in_map_iff. eauto. }
+  destruct op as [t p|t|d|d|]; simpl.
+  - rewrite map_app. simpl.
+    assert (Hn : ~ In t (map fst (s_del s t))) by (rewrite <- s_mem_In, s_del_not_mem; discriminate).
+    specialize (Hdel t). revert Hdel Hn. generalize (map fst (s_del s t)). intros l.
+    induction l as [|a l IH]; simpl; intros ND1 Hn; [constructor; [tauto|constructor]|].
+    inversion ND1; subst. constructor.
+    + rewrite in_app_iff. simpl. intuition congruence.
+    + apply IH; tauto.
+  - destruct (s_mem s t); simpl; auto.
+  - destruct (best s) as [[t0 p0]|]; simpl; auto.
+  - destruct (best s) as [[t0 p0]|]; simpl; auto.
+  - exact ND.
+Qed.
